@@ -558,6 +558,17 @@ func c19Observe(ct *c19Cont, c any, r *c19Ref) (clause, detail string) {
 		if fmt.Sprint(got) != fmt.Sprint(want) && !(len(got) == 0 && len(want) == 0) {
 			return "marshal", fmt.Sprintf("MarshalJSON entries %v, reference %v", got, want)
 		}
+		// the bytes belong to the caller: marshalling again (this container, then a
+		// container of the same kind with other content) does not change them
+		kept := string(b)
+		other := ct.fresh()
+		ct.set(other, 2, 2)
+		ct.set(other, 1, 1)
+		if _, err := ct.marshal(c); err == nil {
+			if _, err2 := ct.marshal(other); err2 == nil && string(b) != kept {
+				return "marshal-result-stays-intact", fmt.Sprintf("the bytes returned by MarshalJSON were %s and read %s after two more MarshalJSON calls", trunc(kept, 80), trunc(string(b), 80))
+			}
+		}
 	}
 	return "", ""
 }
